@@ -1,12 +1,119 @@
-(* C07 — signing and verification are correct for every key kind (glue level; native cryptography is an oracle). *)
+(* C07 — signing and verification are correct for every key kind.
+
+   What is proved is the GLUE of Key.sign / Key.verify / CHECK_SIGNATURE (models: Client/KeyGlue.v,
+   Client/KeyStore.v): curve dispatch, what is hashed before signing, signature length and base58 prefix
+   (generic [sig] vs curve prefix; BLS has no generic form), the table lookups, the curve / prefix test
+   of verify, CHECK_SIGNATURE = "verify did not raise ValueError".
+
+   Native cryptography is an oracle [P : prims]; the theorems hold for EVERY oracle that satisfies the
+   laws [sig_laws P] / [b58_laws P] (Client/KeyGlue.v): a key pair derived natively signs every payload
+   with a signature of the curve's length that native verification accepts; base58check decoding
+   inverts encoding and has the tabulated length / textual prefix.  That an altered message, signature
+   or key is rejected, and that an independent implementation accepts the signature, are properties of
+   the native libraries: here they reduce to "Key.verify returns exactly the native verdict"
+   ([C07_verify_is_native_verdict]) and are tested by the harness (oracle (B)).  In this sense C07 is
+   proved PARTIALLY: the glue for all keys and messages, not the cryptography. *)
 From Coq Require Import String.
 From Coq Require Import List NArith Bool.
+From Coq.Strings Require Import Byte.
 From PV Require Import Base.Bytes Base.Result Client.KeyGlue Client.KeyStore Proofs.KeyGlue_proofs.
 Import ListNotations.
 
-Theorem C07_check_signature_is_verify : forall P pk sg msg k,
-  from_encoded_key P (PS pk) None = Ok k ->
-  check_signature P pk sg msg =
-    match key_verify P k (PS sg) (PB msg) with Valid => Ok true | Invalid => Ok false | Crashed => Reject end.
-Proof. exact check_signature_def. Qed.
-Print Assumptions C07_check_signature_is_verify.
+(* For every curve, every natively derived key pair (se: secret exponent or seed handed to
+   Key.from_secret_exponent), every message that scrub_input accepts (all bytes; str: hex or ASCII) and
+   both forms (generic or not): the key object is built, signing succeeds, and the signature verifies
+   under the key and under its public half. *)
+Theorem C07_sign_then_verify : forall P, sig_laws P -> forall c se pk sk m em g,
+  keypair P c se pk sk -> se <> [] -> scrub_input m = Ok em ->
+  from_secret_exponent P (curve_tag c) se = Ok (mkkey pk (Some sk) (curve_tag c)) /\
+  exists s,
+    key_sign P (mkkey pk (Some sk) (curve_tag c)) m g = Ok s /\
+    key_verify P (mkkey pk (Some sk) (curve_tag c)) (PS s) m = Valid /\
+    key_verify P (mkkey pk None (curve_tag c)) (PS s) m = Valid.
+Proof. exact c07_sign_then_verify. Qed.
+Print Assumptions C07_sign_then_verify.
+
+(* ... and CHECK_SIGNATURE on (public key text, that signature, the message bytes) pushes True. *)
+Theorem C07_check_signature_accepts : forall P, sig_laws P -> forall c se pk sk em g s pks,
+  keypair P c se pk sk -> se <> [] ->
+  key_sign P (mkkey pk (Some sk) (curve_tag c)) (PB em) g = Ok s ->
+  public_key P (mkkey pk (Some sk) (curve_tag c)) = Ok pks ->
+  check_signature P pks s em = Ok true.
+Proof. exact c07_check_signature_accepts. Qed.
+Print Assumptions C07_check_signature_accepts.
+
+(* The form of the signature: base58check of (binary prefix of the row ++ native signature), where the row
+   is [sig] (96 characters) for a generic signature of a non-BLS key and [edsig]/[spsig]/[p2sig]/[BLsig]
+   otherwise — in particular a BLS key signs with [BLsig] also when generic is requested. *)
+Theorem C07_signature_form : forall P, sig_laws P -> forall c pk sk m em g raw,
+  sk <> [] -> scrub_input m = Ok em -> raw_sign P c sk em = Ok raw -> length raw = siglen c ->
+  key_sign P (mkkey pk (Some sk) (curve_tag c)) m g = Ok (str_of (b58enc P (r_bin (sig_row c g) ++ raw))) /\
+  r_txt (sig_row c g) = (if g && negb (curve_eqb c BL) then tx "sig" else curve_tag c ++ tx "sig").
+Proof. exact c07_signature_form. Qed.
+Print Assumptions C07_signature_form.
+
+(* Digest discipline: the native signing / verification primitive of Ed25519, Secp256k1 and P-256 is applied
+   to blake2b-256 of the message, the BLS primitive to the message itself ([payload]); the message enters in no
+   other way — two messages with the same payload get the same signature. *)
+Theorem C07_digest_discipline : forall P c sk pk ds em,
+  raw_sign P c sk em = raw_sign_on P c sk (payload P c em) /\
+  raw_verify P c pk ds em = raw_verify_on P c pk ds (payload P c em).
+Proof. exact digest_discipline. Qed.
+Print Assumptions C07_digest_discipline.
+
+Theorem C07_signature_depends_on_payload_only : forall P k c m m' em em' g,
+  ktag k = curve_tag c -> scrub_input m = Ok em -> scrub_input m' = Ok em' ->
+  payload P c em = payload P c em' -> key_sign P k m g = key_sign P k m' g.
+Proof. exact sign_depends_on_payload. Qed.
+Print Assumptions C07_signature_depends_on_payload_only.
+
+(* Key.verify on a well-formed signature text (any 64 / 96 bytes [raw] under the prefix of curve c', generic
+   or not) for a key of curve c with a public point: a foreign curve prefix is rejected whatever the bytes are;
+   otherwise the verdict is exactly the native verdict on (public point, raw, payload).  Hence an altered
+   message, signature or key is rejected iff the native primitive rejects it. *)
+Theorem C07_verify_is_native_verdict : forall P, b58_laws P -> forall k c c' g raw m em,
+  ktag k = curve_tag c -> pub k <> [] -> scrub_input m = Ok em -> length raw = siglen c' ->
+  key_verify P k (PS (str_of (b58enc P (r_bin (sig_row c' g) ++ raw)))) m =
+    if (g && negb (curve_eqb c' BL)) || curve_eqb c c' then raw_verify P c (pub k) raw em else Invalid.
+Proof. exact verify_wellformed. Qed.
+Print Assumptions C07_verify_is_native_verdict.
+
+(* CHECK_SIGNATURE returns the verdict of Key.verify of the imported public key: True iff verify returns,
+   False iff it raises ValueError; it fails only if verify raises something else. *)
+Theorem C07_check_signature_agrees : forall P, b58_laws P -> forall c pk sec pks sg msg,
+  length pk = pklen c -> public_key P (mkkey pk sec (curve_tag c)) = Ok pks ->
+  check_signature P pks sg msg =
+    match key_verify P (mkkey pk None (curve_tag c)) (PS sg) (PB msg) with
+    | Valid => Ok true | Invalid => Ok false | Crashed => Reject
+    end.
+Proof. exact check_signature_public. Qed.
+Print Assumptions C07_check_signature_agrees.
+
+(* A message given as a hex string (with or without 0x) is the message given as bytes. *)
+Theorem C07_hex_message_is_bytes : forall b,
+  scrub_input (PS (hex_of b)) = Ok b /\ scrub_input (PS (48 :: 120 :: hex_of b)%N) = Ok b.
+Proof. exact scrub_hex. Qed.
+Print Assumptions C07_hex_message_is_bytes.
+
+(* ---- non-vacuity: the model evaluated on native calls recorded from the real libraries (Ed25519 key with
+   seed 01..20 signing the hex string "c0ffee"; the signature text is the one pytezos returns) ---- *)
+Definition ex_table : otable :=
+  [("blake2b"%string, [AN 32%N; AB (hx "c0ffee")], (Ret [AB (hx "88f04f011dcded879039ae4b9b20219d9448e5c7b42c2d1f638fb8740e0ab8be")]));
+   ("ed_sign"%string, [AB (hx "88f04f011dcded879039ae4b9b20219d9448e5c7b42c2d1f638fb8740e0ab8be"); AB (hx "0102030405060708090a0b0c0d0e0f101112131415161718191a1b1c1d1e1f2079b5562e8fe654f94078b112e8a98ba7901f853ae695bed7e0e3910bad049664")], (Ret [AB (hx "bbdaf8820df5faa9ff1fc3b135682fb0eba8f65485450e72ce1a471cf95084ce310cc9ab9f8a6232129492d842d51673e5ba209914096c79638f5c62a317a60e")]));
+   ("b58enc"%string, [AB (hx "09f5cd8612bbdaf8820df5faa9ff1fc3b135682fb0eba8f65485450e72ce1a471cf95084ce310cc9ab9f8a6232129492d842d51673e5ba209914096c79638f5c62a317a60e")], (Ret [AB (tx "edsigtxPDdZsenihf9fzMet5sDYcqr9bVFbxGKwFFsjBaqXfFyFBX5c1co69EpeTHVtER4wjuFDaPTxdF2BU9cvQgRNorPsgEtu")]));
+   ("b58dec"%string, [AB (tx "edsigtxPDdZsenihf9fzMet5sDYcqr9bVFbxGKwFFsjBaqXfFyFBX5c1co69EpeTHVtER4wjuFDaPTxdF2BU9cvQgRNorPsgEtu")], (Ret [AB (hx "09f5cd8612bbdaf8820df5faa9ff1fc3b135682fb0eba8f65485450e72ce1a471cf95084ce310cc9ab9f8a6232129492d842d51673e5ba209914096c79638f5c62a317a60e")]));
+   ("ed_verify"%string, [AB (hx "bbdaf8820df5faa9ff1fc3b135682fb0eba8f65485450e72ce1a471cf95084ce310cc9ab9f8a6232129492d842d51673e5ba209914096c79638f5c62a317a60e"); AB (hx "88f04f011dcded879039ae4b9b20219d9448e5c7b42c2d1f638fb8740e0ab8be"); AB (hx "79b5562e8fe654f94078b112e8a98ba7901f853ae695bed7e0e3910bad049664")], (Ret [AN 1%N]))].
+Definition ex_key (s : option bytes) : key :=
+  mkkey (hx "79b5562e8fe654f94078b112e8a98ba7901f853ae695bed7e0e3910bad049664") s (tx "ed").
+Definition ex_sk : bytes := hx "0102030405060708090a0b0c0d0e0f101112131415161718191a1b1c1d1e1f2079b5562e8fe654f94078b112e8a98ba7901f853ae695bed7e0e3910bad049664".
+Definition ex_sig : pystr := ps "edsigtxPDdZsenihf9fzMet5sDYcqr9bVFbxGKwFFsjBaqXfFyFBX5c1co69EpeTHVtER4wjuFDaPTxdF2BU9cvQgRNorPsgEtu".
+
+Example C07_example_sign :
+  key_sign (prims_of ex_table) (ex_key (Some ex_sk)) (PS (ps "c0ffee")) false = Ok ex_sig.
+Proof. vm_compute. reflexivity. Qed.
+
+Example C07_example_verify :
+  key_verify (prims_of ex_table) (ex_key None) (PS ex_sig) (PB (hx "c0ffee")) = Valid /\
+  key_verify (prims_of ex_table) (ex_key None) (PS ex_sig) (PB (hx "c0ffef")) = Crashed /\   (* native call not in the table *)
+  key_verify (prims_of ex_table) (mkkey (pub (ex_key None)) None (tx "sp")) (PS ex_sig) (PB (hx "c0ffee")) = Invalid.
+Proof. vm_compute. auto. Qed.
